@@ -84,7 +84,7 @@ class Checker:
         hits = find(alt, pred)
         if not hits:
             # decided by close(): a vanished term is a violation when everything that is left has been recognised
-            self.missing.setdefault(id(alt), []).append((q, label, rule, alt))
+            self.missing.setdefault(id(alt), []).append((q, label, rule, alt, pred))
             return None
         self.resolved += 1
         p, atom = hits[0]
@@ -112,10 +112,25 @@ def close_terms(ck):
     other expected atom, the term was dropped (violation); if unrecognised products remain, the code may have been
     reformulated (unresolved)"""
     for aid, items in ck.missing.items():
-        for q, label, rule, alt in items:
+        for q, label, rule, alt, pred in items:
             fn = ck.A.prog.func(q)
             short = q.split('::')[1]
             left = [p for p in alt if id(p) not in ck.matched.get(aid, set())]
+            buried = None
+            for p in left:
+                for f in p.factors:
+                    for x in walk_terms(f, into_mu=False):
+                        try:
+                            if x is not f and pred(x):
+                                buried = (p, x)
+                        except Exception:
+                            pass
+            if buried is not None:
+                # the expected atom is there, but not as a factor of its summand: divided by it, or wrapped into another function
+                ck.run.violation(rule, f'{short}: {label}', fn.loc(getattr(buried[1], 'node', None)),
+                                 f'the term `{label}` does not enter the density as a factor of a summand: `{norm_stmt(buried[1].node)[:60]}` occurs inside '
+                                 f'another operation (a quotient / a function of it)', construct=f'{rule}::{q}::{label}::role')
+                continue
             if not left:
                 ck.run.violation(rule, f'{short}: {label}', fn.loc(), f'the term `{label}` is missing from the density: the expression consists only of '
                                  f'{len(alt)} other recognised term(s)', construct=f'{rule}::{q}::{label}::missing')
@@ -162,7 +177,7 @@ def check_gaussians(ck):
             s = ws[0]
             st = ein.structure(s)
             ip = ein.operand_index(s, lambda b, cj, raw: ein.is_self_field(b, 'precision_cholesky'))
-            idf = ein.operand_index(s, lambda b, cj, raw: isinstance(b, T) and b.op == 'binop' and b.args[0] == 'Sub')
+            idf = ein.operand_index(s, lambda b, cj, raw: isinstance(b, T) and b.op == 'binop' and b.args[0] in ('Sub', 'Add'))
             if ip is None or idf is None:
                 run.unresolved('R-EIN', f'{cname}.log_pdf: whitening operands', s.loc, 'operands not recognised')
                 continue
@@ -170,7 +185,7 @@ def check_gaussians(ck):
             pl, dl, out = st['ins'][ip], st['ins'][idf], st['out']
             # difference = y - mean[..., None, :]
             diff = ein.operand_info(s)[idf][0]
-            okd = ein.derives_from_param(diff.args[1], 'y') and any(self_field(x, 'mean') for x in walk_terms(diff.args[2]))
+            okd = diff.args[0] == 'Sub' and ein.derives_from_param(diff.args[1], 'y') and any(self_field(x, 'mean') for x in walk_terms(diff.args[2]))
             run.check(okd, 'R-EIN', f'{cname}.log_pdf: whitened quantity is y - mean', s.loc, '', 'the whitened operand is not (y - self.mean[..., None, :])',
                       construct=f'R-EIN::{q}::difference')
             if len(pl) != n_prec_letters:
